@@ -98,6 +98,23 @@ def other_views(mem, res):
                 pass  # not offered for this addressing type
 
 
+def scribble(obj, res):
+    """a caller may do what it likes with a table it was handed (add a header row, drop a line, sort it): the NEXT
+    request must show the machine again, not what the caller left in the previous answer"""
+    try:
+        if isinstance(obj, list):
+            obj.reverse()
+            obj.insert(0, obj[0] if obj else None)
+            if len(obj) > 2:
+                del obj[2]
+            res.count("returned_tables_scribbled")
+        elif isinstance(obj, dict):
+            obj.clear()
+            res.count("returned_tables_scribbled")
+    except Exception:
+        pass
+
+
 def check_register_table(sim, res, case):
     decoy_riscv_touch()
     tab = sim.get_register_entries()
@@ -111,6 +128,7 @@ def check_register_table(sim, res, case):
         if msg:
             res.violation("C17", "register-table", "x%d = %#x shown as %r: %s" % (i, vals[i], t, msg), case)
             return False
+    scribble(tab, res)
     return True
 
 
@@ -140,6 +158,7 @@ def check_memory_table(sim, shadow, res, case):
         if msg:
             res.violation("C17", "memory-table-value", "word %#x = %#x shown as %r: %s" % (a, v, reprs, msg), case)
             return False
+    scribble(tab, res)
     return True
 
 
@@ -260,6 +279,8 @@ def run_toy_case(case, res):
             if msg:
                 res.violation("C17", "toy-register-repr", "%s = %#x shown as %r: %s" % (key, val, rr[key], msg), case)
                 return
+        scribble(tab, res)
+        scribble(rr, res)
         if sim.is_done() or k >= case["max_steps"]:
             break
         if case.get("size"):
@@ -338,6 +359,12 @@ def run_shard(spec, res):
             else:
                 prog, regs = G.structured_program(rng, size=rng.randint(4, 25), aligned=rng.random() < 0.5, faults=rng.random() < 0.2)
             mode = rng.choice(["single", "five"])
+            if rng.random() < 0.15:
+                # the last instructions: a store to the last word, then a store that straddles the top of memory (its
+                # in-range bytes may be written before it is rejected) - the table after the failed step is judged too
+                rx_ = rng.choice([1, 2, 3, 5])
+                prog = prog + [{"m": rng.choice(["sw", "sh", "sb"]), "rs1": 0, "rs2": rx_, "imm": -4}, {"m": "addi", "rd": 0, "rs1": 0, "imm": 0}, {"m": "addi", "rd": 0, "rs1": 0, "imm": 0},
+                               rng.choice([{"m": "sw", "rs1": 0, "rs2": rx_, "imm": rng.choice([-1, -2, -3])}, {"m": "sh", "rs1": 0, "rs2": rx_, "imm": -1}])]
             case = {"kind": "rv", "prog": prog, "regs": regs, "mem": G.init_mem(rng, n=24), "mode": mode, "max_steps": 150}
             k2 = rng.random()
             if k2 < 0.35:
